@@ -81,6 +81,30 @@ func runC07(r *mc.Run) {
 			e.Attributes = strings.Repeat("00", l)
 		})
 	}
+	// a QE whose ATTRIBUTES carry a further flag that the identity demands too (KSS, mode64, provision key ...: every
+	// bit of the first two octets in turn): every OTHER requirement still holds — a mismatch elsewhere is a mismatch
+	for bit := 0; bit < 16; bit++ {
+		bit := bit
+		withBit := func(qe []byte) { qe[48+bit/8] |= 1 << uint(bit%8) }
+		idWith := func(e *world.EnclaveIdentity) {
+			v := flipHex(e.Attributes, bit)
+			m := e.AttributesMask
+			var vb, mb byte
+			fmt.Sscanf(e.Attributes[2*(bit/8):2*(bit/8)+2], "%02x", &vb)
+			fmt.Sscanf(m[2*(bit/8):2*(bit/8)+2], "%02x", &mb)
+			if vb&(1<<uint(bit%8)) == 0 {
+				e.Attributes = v // the identity now requires the bit
+			}
+			if mb&(1<<uint(bit%8)) == 0 {
+				e.AttributesMask = flipHex(m, bit) // ... and its mask covers it
+			}
+		}
+		add(fmt.Sprintf("attribute-flag%d-demanded-and-present/otherwise-matching", bit), withBit, idWith)
+		add(fmt.Sprintf("attribute-flag%d-demanded-and-present/isvprodid-differs", bit), func(qe []byte) { withBit(qe); binary.LittleEndian.PutUint16(qe[256:], 0x0103) }, idWith)
+		add(fmt.Sprintf("attribute-flag%d-demanded-and-present/mrsigner-differs", bit), func(qe []byte) { withBit(qe); qe[128+9] ^= 0x40 }, idWith)
+		add(fmt.Sprintf("attribute-flag%d-demanded-and-present/miscselect-differs", bit), func(qe []byte) { withBit(qe); qe[16] ^= 0x04 }, idWith)
+		add(fmt.Sprintf("attribute-flag%d-demanded-and-present/isvsvn-below-every-level", bit), func(qe []byte) { withBit(qe); binary.LittleEndian.PutUint16(qe[258:], 1) }, idWith)
+	}
 	// the identity's value carries bits OUTSIDE its mask (no report can then match: report AND mask never has them) and
 	// the report's raw field equals the identity's value octet for octet / in the masked part
 	for _, bit := range []int{2, 8 * 8, 8*13 + 7, 8*15 + 4, 8*10 + 3} {
